@@ -110,9 +110,14 @@ def edit_in_place(a):
         q = sorted(Q)[-1]
         if q in F: F.discard(q)
         else: F.add(q)
-        d = getattr(a, 'delta', None)
-        if isinstance(d, dict) and d and all(isinstance(v, set) for v in d.values()) and type(a).__name__ == 'NFA':
-            for k in sorted(d)[:2]: d[k].update(Q)           # existing target sets gain states (same dict, same keys, same number of entries)
+        d = getattr(a, 'delta', None); kind = type(a).__name__
+        if isinstance(d, dict) and d:
+            if kind == 'NFA' and all(isinstance(v, set) for v in d.values()):
+                for k in sorted(d)[:2]: d[k].update(Q)           # existing target sets gain states (same dict, same keys, same number of entries)
+            elif kind == 'DFA':
+                k = sorted(d)[0]; d[k] = sorted(Q)[-1] if d[k] != sorted(Q)[-1] else sorted(Q)[0]      # one transition redirected (still total)
+            elif kind == 'PDA' and all(isinstance(v, set) for v in d.values()):
+                k = sorted(d)[0]; d[k].add((sorted(Q)[-1], a.epsilon))                                  # an existing target set gains a move
         return True
     return False
 
